@@ -33,6 +33,16 @@ PROTECTED_NAMES = ['Unique Identifier', 'Object Type', 'State', 'Operation Polic
                    'Cryptographic Algorithm', 'Cryptographic Length', 'Initial Date']
 
 
+def version_sensitive_names():
+    """Names whose rule set was added after KMIP 1.0 or is deprecated: the handlers' answers depend on the version."""
+    from kmip.services.server import policy
+    rs = policy.AttributePolicy(contents.ProtocolVersion(1, 0))._attribute_rule_sets
+    return {n for n, r in rs.items() if r.version_added > contents.ProtocolVersion(1, 0) or r.version_deprecated}
+
+
+VERSION_SENSITIVE = set()
+
+
 def table_names():
     from kmip.services.server import policy
     return list(policy.AttributePolicy(contents.ProtocolVersion(1, 0))._attribute_rule_sets.keys())
@@ -577,9 +587,19 @@ def run_history(ctx, hist, workdir, check=True):
         meta = {'results': [], 'violations': 0}
         for k, st in enumerate(hist['steps']):
             if st['k'] == 'other':
+                before_other = pre
                 do_other(eng, st)
                 dump = eng.dump()
                 pre, views = observe(eng, dump)
+                if check and st['what'] in ('restart', 'get', 'tick') and pre != before_other:
+                    # a reload (new engine, new data session) or a read shows something else than the requests before it
+                    # left behind: an earlier "successful" change was never committed, or a refused one was
+                    last = [x for x in hist['steps'][:k] if x['k'] == 'attr'][-1:] or [st]
+                    ctx.violation(sig_of(last[0], tuple(last[0]['ver']), 'inexact-effect') if last[0]['k'] == 'attr'
+                                  else {'kind': 'inexact-effect', 'op': st['what']},
+                                  {'history': hist, 'failing_step': k, 'step': st, 'before': before_other, 'after': pre},
+                                  'the store observed after %s differs from the one the preceding requests left' % st['what'])
+                    meta['violations'] += 1
                 steps_coq.append('(KOther %s)' % coq_store(pre))
                 meta['results'].append(st['what'])
                 continue
@@ -657,6 +677,12 @@ def grid_history(rng, name, otype, ver1):
         A(form='del', ver=V2, cur=[n2, current_value_of(name, dict(o0, names=o0['names'][-1:], groups=o0['groups'][-1:], asi=o0['asi'][-1:]), rng)])
     for idx in IDX_CLASSES:
         A(form='mod', ver=ver1, attr=[name, idx, value_for(name, rng)])
+    if name in VERSION_SENSITIVE:
+        # the rule table makes the outcome depend on the protocol version: every 1.x version, index absent
+        for v in V1:
+            if v != ver1:
+                A(form='mod', ver=v, attr=[name, None, value_for(name, rng)])
+                A(form='del', ver=v, name=name, idx=None)
     for idx in [7, -1, 1, None, 0]:
         A(form='del', ver=ver1, name=name, idx=idx)
     if name == 'Name':
@@ -696,6 +722,47 @@ def odd_history(rng):
 
 
 CHANGEABLE = ['Name', 'Object Group', 'Application Specific Information', 'Sensitive']
+
+
+def sensitive_history(otype):
+    """Every operation x protocol version on the one single-valued attribute a client can change, each real change on an
+    object of its own, each followed by a reload (new engine + data session on the same database).  Deterministic."""
+    def spec(t, user, sens):
+        return {'type': t, 'user': user, 'via': 'register', 'names': ['a'], 'groups': ['g'], 'asi': [], 'sens': sens, 'mask': 12}
+    objs = [spec(otype, 'alice', None), spec(otype, 'alice', False), spec(otype, 'alice', None), spec(otype, 'bob', True)]
+    steps = []
+
+    def A(**kw):
+        kw.setdefault('user', 'alice')
+        kw.setdefault('uid', '1')
+        kw['k'] = 'attr'
+        steps.append(kw)
+
+    def reload():
+        steps.append({'k': 'other', 'what': 'restart', 'uid': '1', 'user': 'alice'})
+    for v in V1:                                  # only 1.4 knows the attribute: that one really sets the flag
+        A(form='mod', ver=v, attr=['Sensitive', None, ['B', True]])
+        A(form='del', ver=v, name='Sensitive', idx=None)
+        A(form='set', ver=v, new=['Sensitive', ['B', True]])
+    reload()
+    A(form='mod', ver=(1, 4), attr=['Sensitive', None, ['B', False]])          # refused: cannot clear
+    A(form='mod', ver=(1, 4), attr=['Sensitive', None, ['B', True]])           # no change
+    A(form='mod', ver=(1, 4), attr=['Sensitive', 0, ['B', True]])              # index on a single-valued attribute
+    reload()
+    A(form='set', ver=V2, new=['Sensitive', ['B', False]], uid='2')            # False on False
+    A(form='set', ver=V2, new=['Sensitive', ['B', True]], uid='2')
+    reload()
+    A(form='mod', ver=V2, new=['Sensitive', ['B', True]], cur=['B', True], uid='3')      # current value does not match
+    A(form='mod', ver=V2, new=['Sensitive', ['B', True]], cur=['B', False], uid='3')
+    reload()
+    A(form='mod', ver=V2, new=['Sensitive', ['B', False]], cur=None, uid='4', user='bob')  # refused
+    A(form='set', ver=V2, new=['Sensitive', ['B', False]], uid='4', user='bob')
+    A(form='mod', ver=(1, 4), attr=['Sensitive', None, ['B', False]], uid='4', user='bob')
+    A(form='del', ver=V2, cur=['Sensitive', ['B', True]], uid='4', user='bob')
+    A(form='del', ver=V2, ref='Sensitive', uid='4', user='bob')
+    A(form='del', ver=(1, 4), name='Sensitive', idx=0, uid='4', user='bob')
+    reload()
+    return {'objects': objs, 'steps': steps}
 
 
 def shared_history(rng, otype):
@@ -1068,6 +1135,8 @@ def load_local_findings(ctx):
 def histories_for(ctx):
     rng = ctx.subrng('histories')
     names = table_names()
+    VERSION_SENSITIVE.clear()
+    VERSION_SENSITIVE.update(version_sensitive_names())
     quick = ctx.tier == 'quick'
     hs = []
     types = list(TYPES)
@@ -1084,6 +1153,8 @@ def histories_for(ctx):
         hs.append(('odd', odd_history(rng)))
     for t in (types if not quick else [types[ctx.seed % 7], types[(ctx.seed + 2) % 7], types[(ctx.seed + 4) % 7]]):
         hs.append(('shared', shared_history(rng, t)))
+    for t in types:
+        hs.append(('sensitive', sensitive_history(t)))
     for _ in range(60 if quick else 600):
         hs.append(('random', random_history(rng, names + [BOGUS], 14)))
     return hs
